@@ -22,7 +22,7 @@ var nitroStallSites = []int{
 }
 
 func init() {
-	for _, v := range []string{"nitro", "nitro_race", "nitro_seq", "nitro_gc", "nitro_iter", "nitro_visit"} {
+	for _, v := range []string{"nitro", "nitro_race", "nitro_seq", "nitro_gc", "nitro_iter", "nitro_visit", "nitro_backlog"} {
 		v := v
 		register(&Scenario{Name: v, Props: []string{"C01", "C02", "C03", "C04", "C06", "C07", "C09", "C10", "C14"},
 			Gen: func(seed uint64, tier string) *Plan { return genNitro(v, seed, tier) }, Run: runNitro})
@@ -56,6 +56,12 @@ func genNitro(variant string, seed uint64, tier string) *Plan {
 	nreaders := r.Range(1, 3)
 	nclosers := r.Range(1, 2)
 	maxOps := 12
+	if tier == "thorough" && r.Bool(0.4) {
+		// the thorough tier also draws larger plans
+		nkeys = r.Range(2, 12)
+		nph = r.Range(2, 8)
+		maxOps = 16
+	}
 	delW, putW, getW := 3, 5, 2
 	switch variant {
 	case "nitro_race":
@@ -86,6 +92,21 @@ func genNitro(variant string, seed uint64, tier string) *Plan {
 	case "nitro_visit":
 		nkeys = r.Range(2, 12)
 		nreaders = r.Range(1, 2)
+	}
+	if variant == "nitro_backlog" {
+		// more closed snapshots waiting behind an old open one than the collection
+		// queue holds (256): the final Close hands all their lists over in one pass
+		nw = 1
+		nkeys = r.Range(3, 8)
+		nph = r.Range(259, 300)
+		nreaders = 0
+		nclosers = 1
+		maxOps = 2
+		delW, putW, getW = 4, 5, 0
+		k["backlog"] = 1
+	}
+	if k["overlap"] == 0 && r.Bool(0.3) {
+		k["chain"] = 1 // the application chains its nodes with nitro.NodeList
 	}
 	k["nkeys"] = nkeys
 	k["nwriters"] = nw
@@ -203,8 +224,13 @@ func genNitro(variant string, seed uint64, tier string) *Plan {
 	for i := 0; i < nclosers; i++ {
 		tp := TaskPlan{Name: fmt.Sprintf("c%d", i), Phase: -1}
 		n := r.Range(1, nph)
+		if variant == "nitro_backlog" {
+			n = nph + 5
+		}
 		for j := 0; j < n; j++ {
-			if r.Bool(0.15) {
+			if variant == "nitro_backlog" {
+				tp.Ops = append(tp.Ops, Op{K: "closenz", A: []int{r.Intn(8)}})
+			} else if r.Bool(0.15) {
 				tp.Ops = append(tp.Ops, Op{K: "gc"})
 			} else {
 				tp.Ops = append(tp.Ops, Op{K: "close", A: []int{r.Intn(8)}})
@@ -216,6 +242,16 @@ func genNitro(variant string, seed uint64, tier string) *Plan {
 	k["final_order"] = r.Intn(3)
 	k["final_closers"] = r.Range(1, 2)
 	p.Sched = GenSched(r, seed, 150*p.NumOps()+300, nitroStallSites)
+	if variant == "nitro_backlog" {
+		k["final_order"] = 1 // newest first: the old snapshot is closed last
+		k["final_closers"] = 1
+		p.Sched.Strategy = "random"
+		p.Sched.P = []float64{0.005, 0.02}[r.Intn(2)]
+		p.Sched.Bias = "lazy" // the collection workers fall behind
+		p.Sched.StallLen = 0
+		p.Sched.Disabled = nil
+		p.Sched.MaxSteps = 3000000
+	}
 	return p
 }
 
@@ -372,6 +408,15 @@ func runNitro(env *Env) {
 					if len(ne.snaps) > 1 || creationDone {
 						ne.closeOwner(ne.pickOpen(op.Arg(0)))
 					}
+				case "closenz":
+					// close any open snapshot but the oldest one; wait for one to exist
+					s.WaitUntil(func() bool { return len(ne.snaps) > 2 || creationDone })
+					for _, r := range ne.snaps[1:] {
+						if r.ownerOpen && !r.closing && r != ne.lastRec {
+							ne.closeOwner(r)
+							break
+						}
+					}
 				}
 			}
 			othersDone++
@@ -405,6 +450,7 @@ func (ne *nitroEnv) finalStages() {
 			return
 		}
 	}
+	ne.checkChain()
 	mismatch := ne.checkQuiescent(true, "after all snapshots closed")
 	if mismatch != "" {
 		if !ne.closesOverlapped() {
